@@ -122,10 +122,10 @@ PROPS['C02'] = dict(
     id='C02',
     domains=['build'],
     n=dict(quick=3000, thorough=120000),
-    theorems=[('Properties.C02', ['C02_digests_are_computed_over_the_serialized_bytes', 'C02_format_is_hash_of_fed_bytes', 'C02_base16_round_trip', 'C02_record_id_is_bracketed'])],
+    theorems=[('Properties.C02', ['C02_digests_are_computed_over_the_serialized_bytes', 'C02_format_is_hash_of_fed_bytes', 'C02_base16_round_trip', 'C02_record_id_is_bracketed', 'C02_built_record_is_truthful'])],
     kinds={'panic', 'untruthful-length', 'untruthful-block-digest', 'untruthful-payload-digest', 'bad-record-id', 'stale-length-after-wfblock-repair', 'id-repeats'},
     rule='build: builder runs over 27 policy triples x block policy x skip-parse-block x add/fix flags x 4 algorithms x 3 encodings x both versions, all record types, generic/HTTP (incl. missing terminator, unparsable start line)/warc-fields (incl. malformed) contents, 1-3 feeds by Write/WriteString/ReadFrom(7-byte chunks), thresholds 1..size+1, supplied or missing id/length/digest; executable statement: added Content-Length = bytes serialized, added digests = independently computed digests (Go crypto) of block and payload, id bracketed; extra: 4000 ids from 8 goroutines distinct and well-formed',
-    level_text='Proved in Coq: for every option setting, record type, header set and content, the digests ValidateDigest formats have been fed exactly the block that gets serialized and exactly the payload (C02_digests_are_computed_over_the_serialized_bytes), their text is algorithm:encoding(hash(bytes fed)), base16 decodes back in either case, the generated id is bracketed. "However fed, wherever the threshold falls" is discharged by C14. PARTIAL: that the Content-Length and digest FIELDS of the built record equal those values end-to-end through Build is not yet one theorem; it is the executable statement evaluated on every generated build, and the Build model agrees with the implementation on all of them. Uniqueness of generated ids is probabilistic (uuid.New) and only tested.',
+    level_text='Proved in Coq end to end (C02_built_record_is_truthful): for every option setting with the add-missing options on, every error-policy setting, record type, canonical header set that leaves length and digests to the builder, and every content, if Build returns a record then its Content-Length field is the decimal text of the exact number of block bytes that get serialized (also when the HTTP header repair adds CRLF), its WARC-Block-Digest is algorithm:encoding(hash of exactly those bytes) for the configured algorithm and encoding, and for HTTP blocks its WARC-Payload-Digest is the same over exactly the bytes after the HTTP header. Also: digests are fed exactly the serialized block for every option setting; base16 decodes back in either case; the generated id is bracketed. "However fed, wherever the threshold falls" is discharged by C14. Excluded by hypothesis and recorded as known finding: the warc-fields block repair (stale length). PARTIAL only in: uniqueness of generated ids is probabilistic (uuid.New) and tested, not proved',
     level_note='Trusted: Coq kernel, extraction (ExtrOcamlBasic), harness and generators. Oracles: hash functions (Python hashlib), base32/base64 decoders, mime.WordDecoder, net/http header parsing, whatwg-url, net.ParseIP, time.Parse, Unicode case mapping; klauspost gzip (a member is its payload; a cut member yields a payload prefix then io.ErrUnexpectedEOF). bufio.Reader is remaining bytes + a persistent tail condition. Findings are compared by coarse kind derived from error texts. Known finding: with WithFixWarcFieldsBlockErrors(true) under spec ignore the rewritten warc-fields block leaves a stale Content-Length.',
     assumptions=[],
 )
